@@ -59,6 +59,8 @@ class C11Oracle(Oracle):
                 exp, alts = "WrongOption", [m.state()]
             else:
                 exp, alts = m.insert(entry, mode)
+        elif out.step.get("tag") == "G-near-miss":
+            exp, alts = m.delete_near(out.args[0])
         else:
             exp, alts = m.delete(out.args[0])
         self.pending = (h, m, exp, alts)
@@ -76,6 +78,16 @@ class C11Oracle(Oracle):
         got = tier_state(out.recv)
         mode = m.kind + "/" + (out.kwargs.get("collisionMode", "error") if name == "tier.insertEntry" else "-")
         cat = out.step.get("cat", "-")
+        if exp == "any":
+            # gray zone: either outcome, but the state must be the matching alternative
+            want = alts[:1] if not out.ok else alts[1:]
+            match = [a for a in want if states_equal(got, a)]
+            if not match:
+                self._fail(name, f"near-miss-delete-inconsistent/{mode}/{'ok' if out.ok else 'raised'}",
+                           {"acceptable": want, "real": got, "target": repr(out.args[0])})
+            m.commit(match[0])
+            run.stats[f"c11:deleteEntry:{mode}:near-miss:{out.outcome}"] += 1
+            return
         # 1. outcome class
         if exp == OK and not out.ok:
             self._fail(name, f"unexpected-{type(out.exc).__name__}/{mode}",
@@ -164,6 +176,16 @@ def generate(run, rng):
                 st = g.step_insert(w, h, extra_pool=pool)
         else:
             st = g.step_delete(w, h, present=not (fault and rng.random() < 0.6))
+            if st.get("tag") is None and cfg["regime"] == "decimal" and rng.random() < 0.25:
+                # same entry, one time nudged by an ulp: inside praatio's tolerant equality
+                key = "$I" if kind == "I" else "$P"
+                vals = list(st["a"][0][key])
+                i = rng.randrange(len(vals) - 1)
+                import math as _m
+                vals[i] = _m.nextafter(float(vals[i]), rng.choice([-_m.inf, _m.inf]))
+                if kind == "P" or vals[0] < vals[1]:
+                    st["a"] = [{key: vals}]
+                    st["tag"] = "G-near-miss"
         run.do(st)
 
 
